@@ -173,3 +173,27 @@ def gen_table(rng, max_cols=6, max_rows=8):
             db[sib + (1, c) + r] = ("int", 333)
         db[table[:-1] + (table[-1] * 10, 0)] = ("int", 444)
     return table, entry, cells, db
+
+
+def colliding_oid_pairs(prefix, bits=32, columns=(1, 2), limit=250000, want=3):
+    """
+    Pairs of instance OIDs ``prefix.col.idx`` whose dotted-string hashes - under THIS
+    interpreter's hash seed - agree in their low ``bits`` bits.  A set or cache that keeps
+    a truncated fingerprint instead of the OID takes the second for the first.
+    Returns a list of (oid_a, oid_b) tuples (possibly empty).
+    """
+    mask = (1 << bits) - 1
+    head = ".".join(str(a) for a in prefix)
+    seen = {}
+    out = []
+    for col in columns:
+        for idx in range(1, limit):
+            key = hash("%s.%d.%d" % (head, col, idx)) & mask
+            other = seen.get(key)
+            if other is not None:
+                out.append((prefix + other, prefix + (col, idx)))
+                if len(out) >= want:
+                    return out
+            else:
+                seen[key] = (col, idx)
+    return out
